@@ -35,6 +35,16 @@ def atKey {β : Type} (l : List β) : Key → Py.M β
   | .index i => Py.nthInt l i
   | .name _ => .error .internal
 
+/-- a `Variable` of either kind: `InputVariable` and `OutputVariable` are subclasses of `Variable`, and a list may hold
+    objects of both -/
+abbrev Variable := InVar Rat ⊕ OutVar Rat
+
+/-- an input variable (with the value it holds) seen as a `Variable` -/
+def inVariable (p : InVar Rat × VarValue Rat) : Variable × VarValue Rat := (.inl p.1, p.2)
+
+/-- an output variable (with the value it holds) seen as a `Variable` -/
+def outVariable (p : OutVar Rat × VarValue Rat) : Variable × VarValue Rat := (.inr p.1, p.2)
+
 /-- `np.atleast_1d(v)`: a 0-d value becomes a 1-D array of one element -/
 def atleast1d : VarValue Rat → VarValue Rat
   | .scalar x => .vector [x]
